@@ -219,7 +219,7 @@ class Query:
     """
 
     def __init__(self, qid, family, make, bounds, budget_s=60.0, per_path_timeout=20.0, expect=(), replay=None,
-                 keep_going=False, stubs=(), functions=(), witnesses=40, note=""):
+                 keep_going=False, stubs=(), functions=(), witnesses=40, note="", max_cex=8):
         self.qid = qid
         self.family = family
         self.make = make
@@ -233,6 +233,7 @@ class Query:
         self.functions = tuple(functions)
         self.witnesses = witnesses
         self.note = note
+        self.max_cex = max_cex
 
 
 def _jsonable(x):
@@ -252,7 +253,7 @@ def _execute(q):
     t0 = time.time()
     fn = q.make("sym")
     r = decide(fn, budget_s=q.budget_s, per_path_timeout=q.per_path_timeout, collect_witnesses=q.witnesses,
-               keep_going=q.keep_going)
+               keep_going=q.keep_going, max_cex=q.max_cex)
     r["qid"] = q.qid
     r["family"] = q.family
     r["native_ok"] = 0
